@@ -95,7 +95,8 @@ impl Prop for C05 {
                 iso.push(IsoSpec { id: format!("i{}_{:x}", j, rng.below(0xffff)), res: res.clone(), threshold: t });
             }
         }
-        let values = ["u1", "u2", "u3", "u4", "u5"];
+        // one scenario in three: the empty string is one of the parameter values (a legal value like any other)
+        let values = if rng.chance(1, 3) { ["u1", "", "u3", "u4", "u5"] } else { ["u1", "u2", "u3", "u4", "u5"] };
         let nvals = rng.range(1, 5) as usize;
         if mode != 0 {
             for j in 0..rng.range(1, 3) {
